@@ -3,7 +3,7 @@
 # usage: [SWEEP_SEEDS="0 5 9"] tools/seedsweep.sh [name-glob]
 pat=${1:-*}
 for d in /verif/seeded/$pat/; do
-  name=$(basename $d); prop=$(python3 -c "import json;print(json.load(open('$d/meta.json'))['property'])")
+  name=$(basename $d); prop=$(python3 -c "import json;m=json.load(open('$d/meta.json'));print(m.get('sweep_property',m['property']))")
   wt=/tmp/sweep-$name
   git -C /repo worktree remove --force $wt >/dev/null 2>&1
   base=$(python3 -c "import json;print(json.load(open('$d/meta.json')).get('base','HEAD'))")
